@@ -208,8 +208,8 @@ func Match(r *wire.Req, foldedNames map[string]bool, o *Obs) string {
 	if strings.Join(want, "\n") != strings.Join(got, "\n") {
 		return fmt.Sprintf("header fields differ:\n got  %q\n want %q", got, want)
 	}
-	wt := wire.NormLoose(r.Trailers, nil)
-	gt := wire.NormLoose(o.Trailers, nil)
+	wt := wire.NormLoose(r.Trailers, foldedNames)
+	gt := wire.NormLoose(o.Trailers, foldedNames)
 	if strings.Join(wt, "\n") != strings.Join(gt, "\n") {
 		return fmt.Sprintf("declared trailers differ: got %q want %q", gt, wt)
 	}
